@@ -5,7 +5,8 @@ Open Scope Z_scope.
 
 Definition flat {F} (rows : list (list (Z * F))) : list Z * list F := (map fst (concat rows), map snd (concat rows)).
 Definition eps15F : float := 0x1.203af9ee75616p-50%float.     (* the double nearest to 1e-15 *)
-(* kind 0: direct ; 1: classical (not modified) ; 2: classical modified ; 3: remove_strong_FF (returns Sx)
+(* kind 0: direct ; 1: classical (not modified) ; 2: classical modified ; 3: remove_strong_FF (returns Sx) ;
+   4: one_point_interpolation (strength matrix in the S slot)
    case: (kind, n, (Ap,Aj,Ax), (Sp,Sj,Sx), splitting, (Pp, Pj, Px)) *)
 Definition caseT := (nat * Z * (list Z * list Z * list float) * (list Z * list Z * list float) * list Z *
                      (list Z * list Z * list float))%type.
@@ -13,6 +14,8 @@ Definition chk (c : caseT) : bool :=
   let '(kind, n, (Ap, Aj, Ax), (Sp, Sj, Sx), spl, (Pp, Pj, Px)) := c in
   match kind with
   | 3%nat => list_eqb PrimFloat.eqb (remove_strong_FF opsF n Sp Sj Sx spl) Px
+  | 4%nat => let '(pj, px) := flat (one_point_rows opsF n Sp Sj Sx spl) in
+             list_eqb Z.eqb (one_point_ptr opsF n Sp Sj Sx spl) Pp && list_eqb Z.eqb pj Pj && list_eqb PrimFloat.eqb px Px
   | _ =>
     let rows := match kind with
                 | 0%nat => direct_rows opsF n Ap Aj Ax Sp Sj Sx spl
